@@ -29,6 +29,9 @@ type consumerCfg struct {
 	Nil     bool `json:"nil,omitempty"`
 	Cap     int  `json:"cap"`
 	Profile int  `json:"profile"` // 0 fast, 1 yields, 2 slow 50us-2ms, 3 bursty
+	// the consumer is held up once, for StallMs, after it has received StallAtMsg messages
+	StallAtMsg int `json:"stall_after_messages,omitempty"`
+	StallMs    int `json:"stall_ms,omitempty"`
 }
 
 type pipeCase struct {
@@ -204,6 +207,9 @@ func execC09(c *child.Ctx, k pipeCase, cj []byte, traces, pairs map[uint64]struc
 				tick()
 				results[i] = append(results[i], recvd{Type: m.MessageType, Raw: m.RawData, Copy: append([]byte(nil), m.RawData...)})
 				consumerDelay(r, cc.Profile)
+				if cc.StallMs > 0 && len(results[i]) == cc.StallAtMsg {
+					sleepTicking(time.Duration(cc.StallMs) * time.Millisecond)
+				}
 			}
 			close(consDone[i])
 		}(i, cc)
@@ -234,7 +240,11 @@ func execC09(c *child.Ctx, k pipeCase, cj []byte, traces, pairs map[uint64]struc
 			ret = core.HandleMessagesUntilEOF(fixedStart, rd)
 			close(returned)
 		}()
-		waitOrHang(returned, caseWatchdog+time.Duration((len(k.SilenceAt)+1)*k.SilenceMs)*time.Millisecond, "HandleMessagesUntilEOF did not return after the source was exhausted")
+		extraWait := time.Duration((len(k.SilenceAt)+1)*k.SilenceMs) * time.Millisecond
+		for _, cc := range k.Consumers {
+			extraWait += time.Duration(cc.StallMs) * time.Millisecond
+		}
+		waitOrHang(returned, caseWatchdog+extraWait, "HandleMessagesUntilEOF did not return after the source was exhausted")
 		if ret != 0 {
 			c.Violate("wrong-return", fmt.Sprintf("HandleMessagesUntilEOF returned %d for source %d", ret, si), cj)
 		}
@@ -427,7 +437,7 @@ func monC09(c *child.Ctx, replay json.RawMessage) {
 			k.EmptyPermille = []int{20, 200, 500}[r.Intn(3)]
 			c.Count("runs_with_empty_reads", 1)
 		}
-		if sb := c.NBatch - 1 - c.Batch; i == 0 && sb < len(timedStalls(c)) {
+		if sb := c.Batch - 1; i == 0 && sb >= 0 && sb < len(timedStalls(c)) {
 			// a source that falls silent in the middle of text, in the middle of frames and
 			// between them, for longer than any plausible flush or idle timer
 			st := gen.Stream{gen.RandFrame(r), gen.Seg{Kind: "junk", Type: -1, Bytes: []byte("$GPGGA,123519,4807.038,N,01131.000,E,1,08,0.9,545.4,M,46.9,M,,*47\r\n")}, gen.RandFrame(r),
@@ -443,6 +453,39 @@ func monC09(c *child.Ctx, replay json.RawMessage) {
 			k.SilenceMs = int(timedStalls(c)[sb].Milliseconds())
 			k.Chunk = 64
 			c.Count("runs_with_silent_source", 1)
+		}
+		if i == 1 && c.Batch < len(onceStalls(c)) {
+			// one consumer is held up once, for seconds, while the source keeps sending;
+			// the other consumers, and this one afterwards, still get everything
+			for j := range k.Consumers {
+				if !k.Consumers[j].Nil {
+					k.Consumers[j].StallAtMsg = r.Range(1, 3)
+					k.Consumers[j].StallMs = int(onceStalls(c)[c.Batch].Milliseconds())
+					k.Consumers[j].Cap = []int{0, 1}[r.Intn(2)]
+					break
+				}
+			}
+			c.Count("runs_with_a_consumer_held_up_once", 1)
+		} else if i%8 == 6 && len(input) > 200 && k.SilenceMs == 0 {
+			// a transient double end-of-file right after a consumer was held up for longer
+			// than the tolerance: the hold-up is not silence of the source
+			k.TolMs, k.More, k.EOFAt, k.PauseMs = 60, nil, nil, nil
+			k.Consumers = []consumerCfg{{Cap: 0, Profile: 0, StallAtMsg: r.Range(1, 3), StallMs: r.Range(90, 160)}}
+			base := runSequential(fixedStart, slog.LevelDebug, input)
+			off := 0
+			for mi := range base {
+				off += len(base[mi].RawData)
+				if mi >= k.Consumers[0].StallAtMsg-1 && mi < k.Consumers[0].StallAtMsg+5 && off+1 < len(input) {
+					at := off + 1 + mi%2
+					if n := len(k.EOFAt); n > 0 && at <= k.EOFAt[n-1] {
+						continue // every series is a double one, with data before the next
+					}
+					k.EOFAt = append(k.EOFAt, at, at)
+					k.PauseMs = append(k.PauseMs, 0, 0)
+				}
+			}
+			k.Chunk = 5000
+			c.Count("runs_with_interruption_after_a_held_up_consumer", 1)
 		}
 		cj := c.BeginV(k)
 		nbase := execC09(c, k, cj, traces, pairs)
